@@ -471,6 +471,12 @@ func hasCondition(p *v3.IPPool, conditionType string, status metav1.ConditionSta
 // updateCondition updates the given condition on the IP pool if it has changed, and updates the status of the pool if needed.
 // It mutates p, so p must be a copy the caller owns rather than an object from the informer cache.
 func updateCondition(ctx context.Context, cli clientset.Interface, p *v3.IPPool, condition metav1.Condition) error {
+	// Remember the status we were handed: if the write is rejected, p must keep describing what the API server
+	// has, because the finalizer pass acts on p's condition and must not act on a condition that was never stored.
+	var prev *v3.IPPoolStatus
+	if p.Status != nil {
+		prev = p.Status.DeepCopy()
+	}
 	if !setConditionOnPool(p, condition) {
 		return nil
 	}
@@ -478,6 +484,7 @@ func updateCondition(ctx context.Context, cli clientset.Interface, p *v3.IPPool,
 	logrus.WithField("pool", p.Name).Infof("Updating condition %s to %s", condition.Type, condition.Status)
 	updated, err := cli.ProjectcalicoV3().IPPools().UpdateStatus(ctx, p, metav1.UpdateOptions{})
 	if err != nil {
+		p.Status = prev
 		return fmt.Errorf("update status of IPPool %s: %w", p.Name, err)
 	}
 
